@@ -145,6 +145,19 @@ var modules = []Module{
 		},
 	},
 	{
+		// the short/long form boundary of RLP headers: every site that decides between the one-byte and the long form (C14 canonicity)
+		File: "RlpBounds.lean", NS: "LemoGen.RlpBounds",
+		Exprs: []ExprSpec{
+			{Pkg: "common/rlp", Recv: "Stream", Func: "readKind", Kind: "ifcond", LHS: "size <", Nth: 0, Lean: "streamStringCanonCond"},
+			{Pkg: "common/rlp", Recv: "Stream", Func: "readKind", Kind: "ifcond", LHS: "size <", Nth: 1, Lean: "streamListCanonCond"},
+			{Pkg: "common/rlp", Func: "readSize", Kind: "ifcond", LHS: "s <", Nth: 0, K: 1, Lean: "rawSizeCanonCond"},
+			{Pkg: "common/rlp", Func: "headsize", Kind: "ifcond", LHS: "size <", Nth: 0, Lean: "headsizeShortCond"},
+			{Pkg: "common/rlp", Func: "puthead", Kind: "ifcond", LHS: "size <", Nth: 0, Lean: "putheadShortCond"},
+			{Pkg: "common/rlp", Recv: "encbuf", Func: "encodeStringHeader", Kind: "ifcond", LHS: "size <", Nth: 0, Lean: "stringHeaderShortCond"},
+			{Pkg: "common/rlp", Recv: "encbuf", Func: "listEnd", Kind: "ifcond", LHS: "size <", Nth: 0, Lean: "listEndShortCond"},
+		},
+	},
+	{
 		File: "NetCache.lean", NS: "LemoGen.NetCache",
 		Exprs: []ExprSpec{
 			{Pkg: "network", Recv: "ConfirmCache", Func: "Push", Kind: "ifcond", LHS: "len(c.cache)", Nth: 0, Lean: "confirmCacheFlushCond"},
@@ -387,6 +400,25 @@ func (t *tr) expr(e ast.Expr) (string, lty) {
 			return s, st
 		}
 	case *ast.BinaryExpr:
+		// `v == nil` / `v != nil` for an error or otherwise opaque variable: a Boolean parameter `v_isNil` of the generated definition
+		if x.Op == token.EQL || x.Op == token.NEQ {
+			for _, pair := range [][2]ast.Expr{{x.X, x.Y}, {x.Y, x.X}} {
+				id, ok1 := pair[0].(*ast.Ident)
+				nl, ok2 := pair[1].(*ast.Ident)
+				if ok1 && ok2 && nl.Name == "nil" && t.info.Uses[nl] == types.Universe.Lookup("nil") {
+					if v, ok := t.info.Uses[id].(*types.Var); ok {
+						if k := classify(v.Type()).k; k == kErr || k == kOpaque {
+							name := sanitize(id.Name) + "_isNil"
+							t.addParam(name, lty{k: kBool})
+							if x.Op == token.EQL {
+								return name, lty{k: kBool}
+							}
+							return "(!" + name + ")", lty{k: kBool}
+						}
+					}
+				}
+			}
+		}
 		a, at := t.expr(x.X)
 		b, bt := t.expr(x.Y)
 		opt := at
@@ -1191,6 +1223,27 @@ func main() {
 						if es.Kind == "ifcond" && strings.Contains(nodeText(p.Fset, x.Cond), es.LHS) {
 							if cnt == es.Nth {
 								target = x.Cond
+								// K > 0 selects the K-th operand (1-based) of a top-level `||` / `&&` chain of the condition
+								if es.K > 0 {
+									var ops []ast.Expr
+									var flat func(e ast.Expr, op token.Token)
+									flat = func(e ast.Expr, op token.Token) {
+										if be, ok := e.(*ast.BinaryExpr); ok && be.Op == op {
+											flat(be.X, op)
+											flat(be.Y, op)
+										} else {
+											ops = append(ops, e)
+										}
+									}
+									if be, ok := x.Cond.(*ast.BinaryExpr); ok && (be.Op == token.LOR || be.Op == token.LAND) {
+										flat(x.Cond, be.Op)
+									}
+									if es.K <= len(ops) {
+										target = ops[es.K-1]
+									} else {
+										target = nil
+									}
+								}
 							}
 							cnt++
 						}
